@@ -499,7 +499,14 @@ func work(w *mon.W) {
 			h := q
 			h.method = "HEAD"
 			plain := reqSpec{method: "GET", file: "t.txt", L: 6000, kind: "file", rng: r.Str("", "bytes=10-20", "bytes=-5")}
-			qs = []reqSpec{q, h, plain, q}
+			// a ranged request that also accepts gzip, after the compressed copy is cached
+			rg := reqSpec{method: "GET", file: "t.txt", L: 6000, kind: "file", gzip: true, rng: r.Str("bytes=10-20", "bytes=-5", "bytes=100-299", "bytes=5990-", "bytes=0-0")}
+			rh := rg
+			rh.method = "HEAD"
+			qs = []reqSpec{q, h, plain, rg, rh, q}
+			if r.Chance(4) {
+				qs = []reqSpec{rg, q, rh, rg, plain}
+			}
 		}
 		c.Detail = func() interface{} {
 			return map[string]interface{}{"engine": en.name, "requests": fmt.Sprintf("%+v", qs)}
